@@ -2133,3 +2133,41 @@ def gen_rdf_shape():
     return ('rdfshape: statements of radial_distribution (edges, right-closed digitize with an overflow bin dropped at the end, minimum-image distances per frame, one '
             'bincount per (state, symbol)) and radial_distribution_between_species (histogram over the same edges / (particle density x 4/3 pi ((r + dr)^3 - r^3))) '
             'are the ones Model.C11 and the C11 certificates transcribe', True, 'ok')
+
+
+# ---------------------------------------------------------------- unit: utils.meanfreq / attempt_frequency (C14)
+def meanfreq_unit():
+    tree = _parse('utils.py')
+    src = [ast.unparse(s) for s in _stmts(_find_func(tree, None, 'meanfreq'))]
+    want = ['if x.ndim == 1:\n    x = x.reshape(1, -1)', 'assert x.ndim == 2', 'f, Pxx_den = signal.periodogram(x, fs, axis=-1)', 'width = np.tile(f[1] - f[0], Pxx_den.shape)',
+            'P = Pxx_den * width', 'pwr = np.sum(P, axis=1).reshape(-1, 1)', 'f = f.reshape(1, -1)', 'mnfreq = np.dot(P, f.T) / pwr', 'return mnfreq']
+    if src != want:
+        k = next((i for i, (a, b) in enumerate(zip(src, want)) if a != b), min(len(src), len(want)))
+        raise Unsupported('meanfreq statement %d: %s' % (k, src[k][:140] if k < len(src) else '<missing>'))
+    mt = _parse('metrics.py')
+    af = [ast.unparse(s) for s in _stmts(_find_func(mt, 'TrajectoryMetrics', 'attempt_frequency'))]
+    want = ['speed = self.speed()', 'freq_mean = meanfreq(speed, fs=self.trajectory.sampling_frequency)', 'attempt_freq_std = np.std(freq_mean)',
+            "attempt_freq_std = FloatWithUnit(attempt_freq_std, 'hz')", 'attempt_freq = np.mean(freq_mean)', "attempt_freq = FloatWithUnit(attempt_freq, 'hz')",
+            'return (attempt_freq, attempt_freq_std)']
+    if af != want:
+        k = next((i for i, (a, b) in enumerate(zip(af, want)) if a != b), min(len(af), len(want)))
+        raise Unsupported('attempt_frequency statement %d: %s' % (k, af[k][:140] if k < len(af) else '<missing>'))
+    tj = _parse('trajectory.py')
+    sf = [ast.unparse(s) for s in _stmts(_find_func(tj, 'Trajectory', 'sampling_frequency'))]
+    if sf != ['assert self.time_step', 'return 1 / self.time_step']:
+        raise Unsupported('sampling_frequency: ' + ' | '.join(sf)[:200])
+
+
+def gen_meanfreq():
+    os.makedirs(GEN, exist_ok=True)
+    try:
+        meanfreq_unit()
+    except Unsupported as e:
+        return ('meanfreq', False, f'translator: unsupported {e}')
+    src = '(* GENERATED (static text harness/meanfreq_proof.v.txt, emitted only when the statements of utils.meanfreq, TrajectoryMetrics.attempt_frequency and\n' \
+          '   Trajectory.sampling_frequency are the ones it transcribes) -- do not edit *)\n' + open(os.path.join(_V, 'harness', 'meanfreq_proof.v.txt')).read()
+    open(os.path.join(GEN, 'MeanFreq.v'), 'w').write(src)
+    ok, log = compile_gen('MeanFreq.v')
+    return ('meanfreq: statements of utils.meanfreq (periodogram, bin width f[1] - f[0], power x width, weighted mean of the frequency grid), attempt_frequency '
+            '(mean and standard deviation over the atoms, in Hz) and sampling_frequency (1 / time step); the literal computation with the bin width in numerator and '
+            'denominator proved equal to Model.C14.meanfreq (gen_meanfreq_is_model)', ok, 'ok' if ok else log[-800:])
